@@ -1,6 +1,240 @@
-(* C04 - engine instances are isolated; interleaved queries do not interfere. (placeholder, replaced below) *)
-From Coq Require Import List Arith.
-From YP Require Import Engine.World.
-Theorem C04_eng_of_cell : forall n e m, e < n -> eng_of n (cell n e m) = e.
-Proof. exact eng_of_cell. Qed.
-Print Assumptions C04_eng_of_cell.
+(* C04 - engine instances are isolated; interleaved queries do not interfere.
+   Only statements; every proof is `exact <lemma>` to a lemma proved in Engine/Isolation.v, Engine/Slots.v,
+   Engine/SlotsReach.v, Engine/CursorFrame.v, Engine/Frame.v (examples: Engine/IsolationExamples.v).
+
+   Model (Engine/World.v): a world = n engine records (atom table, fact store, eval_context, reserved names,
+   the query generators the caller holds) + ONE heap of variable bindings shared by all engines (a Variable
+   is not owned by an engine in the code either).  A step = (engine id, operation); operations: atom,
+   assert (assert_fact/asserta/assertz), retract(all), register_function, load_script (overwrite / chained),
+   clear, start / next / close-or-drop / drain of a query generator in a slot, peek (get_value of terms over the
+   user's variables between two steps).  The thread part of the property is NOT a theorem: the model's schedules
+   are at operation (= generator step) granularity; threads are a test of the harness (run (c)).
+   Pe n i = the cells of engine i (its user variables and everything its queries allocate);
+   fP P h / fN P h = the bindings of the heap h whose cell is / is not in P (order kept);
+   winv = world invariant: engine ids < n, each generator of engine i holds terms over Pe n i only, and the value
+   bound to a cell of engine j mentions cells of engine j only ("engines do not share variables").
+   Fuel is the search fuel of one generator step; all statements hold for every fuel (an out-of-fuel step is the
+   observation "err", the same on both sides). *)
+From Coq Require Import String.
+From Coq Require Import List Arith Bool.
+Import ListNotations.
+From YP Require Import Base.Str Term.Term Unify.Unify Engine.Frame Engine.World Engine.CursorFrame
+  Engine.Isolation Engine.Slots Engine.SlotsReach Engine.IsolationExamples.
+
+(* the initial world of any number of engines satisfies the invariant, and every step keeps it (see step_local) *)
+Theorem C04_init_world_inv : forall n, winv (init_world n).
+Proof. exact init_world_inv. Qed.
+Print Assumptions C04_init_world_inv.
+
+(* 1. step_local: one operation of engine i, whatever it is,
+      - leaves the record of every other engine untouched,
+      - leaves every binding of a cell that is not engine i's in place (same value, same position),
+        in particular the part of the heap every other engine j can see,
+      - adds bindings of engine i's cells only,
+      - and reads nothing but engine i's record and engine i's part of the heap: run on the heap cut down to
+        engine i's cells it gives the same new record, the same observation and the same new own part. *)
+Theorem C04_step_local : forall fuel w i o w' ob,
+  winv w -> wstep fuel w (i, o) = (w', ob) ->
+  winv w' /\ wn w' = wn w
+  /\ (forall j, j <> i -> aget Nat.eqb j (engs w') = aget Nat.eqb j (engs w))
+  /\ fN (Pe (wn w) i) (heap w') = fN (Pe (wn w) i) (heap w)
+  /\ (forall j, j <> i -> fP (Pe (wn w) j) (heap w') = fP (Pe (wn w) j) (heap w))
+  /\ newP (Pe (wn w) i) (heap w) (heap w')
+  /\ match aget Nat.eqb i (engs w) with
+     | None => w' = w
+     | Some e => exists e', aget Nat.eqb i (engs w') = Some e'
+                   /\ estep fuel (wn w) i o e (fP (Pe (wn w) i) (heap w)) = (e', fP (Pe (wn w) i) (heap w'), ob)
+     end.
+Proof. exact step_local. Qed.
+Print Assumptions C04_step_local.
+
+(* the same as a noninterference statement: on two heaps that agree on engine i's cells, an operation of engine i
+   gives the same record and the same observation, heaps that agree again, and changes nothing else in either *)
+Theorem C04_step_noninterference : forall n i, i < n -> forall fuel o e h1 h2 e1 h1' ob1 e2 h2' ob2,
+  closed (Pe n i) h1 -> closed (Pe n i) h2 -> einv n i e -> fP (Pe n i) h1 = fP (Pe n i) h2 ->
+  estep fuel n i o e h1 = (e1, h1', ob1) -> estep fuel n i o e h2 = (e2, h2', ob2) ->
+  e1 = e2 /\ ob1 = ob2 /\ fP (Pe n i) h1' = fP (Pe n i) h2'
+  /\ fN (Pe n i) h1' = fN (Pe n i) h1 /\ fN (Pe n i) h2' = fN (Pe n i) h2.
+Proof. exact estep_agree. Qed.
+Print Assumptions C04_step_noninterference.
+
+(* 2. interleave_alone: any number of engines, EVERY schedule (= every merge of the per-engine histories
+      `only i sched`), from any world that satisfies the invariant: for every engine i, the sequence of its
+      observations (proj i tr), the record it ends with and its part of the final heap are exactly those of
+      running its own operations alone on a private heap (erun = estep iterated, no other engine exists there). *)
+Theorem C04_interleave_alone : forall fuel sched w w' tr,
+  winv w -> wrun fuel w sched = (w', tr) ->
+  winv w' /\
+  forall i e, aget Nat.eqb i (engs w) = Some e ->
+    exists e', aget Nat.eqb i (engs w') = Some e' /\
+      erun (wn w) i fuel (map snd (only i sched)) e (fP (Pe (wn w) i) (heap w))
+      = (e', fP (Pe (wn w) i) (heap w'), proj i tr).
+Proof. exact interleave_alone. Qed.
+Print Assumptions C04_interleave_alone.
+
+(* ... from freshly created engines: *)
+Theorem C04_interleave_alone_init : forall fuel n sched i, i < n ->
+  proj i (snd (wrun fuel (init_world n) sched))
+  = snd (erun n i fuel (map snd (only i sched)) init_engine []).
+Proof. exact interleave_alone_init. Qed.
+Print Assumptions C04_interleave_alone_init.
+
+(* ... which is what engine i observes when the other engines never do anything: *)
+Theorem C04_interleaved_eq_alone : forall fuel n sched i, i < n ->
+  proj i (snd (wrun fuel (init_world n) sched)) = map snd (snd (wrun fuel (init_world n) (only i sched))).
+Proof. exact interleave_alone_world. Qed.
+Print Assumptions C04_interleaved_eq_alone.
+
+(* ... so no engine can tell two merges of the same histories apart: *)
+Theorem C04_merges_indistinguishable : forall fuel n s1 s2 i, i < n -> only i s1 = only i s2 ->
+  proj i (snd (wrun fuel (init_world n) s1)) = proj i (snd (wrun fuel (init_world n) s2)).
+Proof. exact merges_indistinguishable. Qed.
+Print Assumptions C04_merges_indistinguishable.
+
+(* the same with the histories given: hists[i] = the operations of engine i; is_merge n hists sched says that sched is
+   one of their merges (the operations of engine i appear in sched in their order).  EVERY merge shows engine i the
+   observations of its history run alone, hence the same as the merge "back to back" (b2b: the whole history of engine
+   0, then the whole history of engine 1, ...), which is a merge too. *)
+Theorem C04_every_merge : forall fuel n hists sched, is_merge n hists sched ->
+  forall i, i < n ->
+  proj i (snd (wrun fuel (init_world n) sched)) = snd (erun n i fuel (nth i hists []) init_engine []).
+Proof. exact every_merge. Qed.
+Print Assumptions C04_every_merge.
+
+Theorem C04_back_to_back_is_merge : forall n hists, is_merge n hists (b2b 0 hists).
+Proof. exact b2b_is_merge. Qed.
+Print Assumptions C04_back_to_back_is_merge.
+
+Theorem C04_merge_eq_back_to_back : forall fuel n hists sched, is_merge n hists sched ->
+  forall i, i < n ->
+  proj i (snd (wrun fuel (init_world n) sched)) = proj i (snd (wrun fuel (init_world n) (b2b 0 hists))).
+Proof. exact merge_eq_back_to_back. Qed.
+Print Assumptions C04_merge_eq_back_to_back.
+
+(* 3. same_engine_disjoint, engine level: any number of generators of ONE engine, suspended simultaneously, over
+      pairwise disjoint sets of cells PQ q (sinv: the generator in slot q holds terms over PQ q and allocates in
+      PQ q; heap values of PQ q cells are over PQ q).  For EVERY sequence of next / close / drain operations on
+      the slots, what is observed on slot q is what is observed when only the operations on slot q are run, on
+      q's part of the heap.  (These operations do not write the database in the model: read-only queries.) *)
+Theorem C04_same_engine_slots : forall n i PQ,
+  (forall q q' v, q <> q' -> PQ q v = true -> PQ q' v = false) ->
+  forall fuel ops e h q, Forall qop ops -> sinv n i PQ e h ->
+  pick q ops (snd (erun n i fuel ops e h)) = snd (erun n i fuel (filter (is_slot q) ops) e (fP (PQ q) h)).
+Proof. exact same_engine_slots. Qed.
+Print Assumptions C04_same_engine_slots.
+
+(* the invariant form: also the generator left in slot q and q's part of the heap are those of the run alone,
+   from any engine record that agrees on the database and on slot q *)
+Theorem C04_slots_alone : forall n i PQ,
+  (forall q q' v, q <> q' -> PQ q v = true -> PQ q' v = false) ->
+  forall fuel ops e h e' h' bs, Forall qop ops -> sinv n i PQ e h -> erun n i fuel ops e h = (e', h', bs) ->
+  sinv n i PQ e' h' /\
+  forall q ea, sim q e ea ->
+    exists ea', erun n i fuel (filter (is_slot q) ops) ea (fP (PQ q) h) = (ea', fP (PQ q) h', pick q ops bs)
+                /\ sim q e' ea'.
+Proof. exact slots_alone. Qed.
+Print Assumptions C04_slots_alone.
+
+(* how the hypothesis sinv comes about: it holds when the engine holds no generator, and starting a query in slot q
+   whose argument terms are over a set of cells Pnew (which contains the cells the new query will allocate: they are named
+   after the engine's start counter) extends the family by PQ q := Pnew; a generator that was in the slot is dropped.
+   With Pnew disjoint from the other PQ q' this is "simultaneously suspended queries over disjoint variables". *)
+Theorem C04_slots_none : forall n i PQ e h, cursors e = [] -> (forall q, closed (PQ q) h) -> sinv n i PQ e h.
+Proof. exact sinv_nocursors. Qed.
+Print Assumptions C04_slots_none.
+
+Theorem C04_slots_start : forall fuel n i PQ q Pnew nm args e h e' h' ob,
+  sinv n i PQ e h ->
+  Forall (tin Pnew) (map (rn (ucell n i)) args) -> (forall k, Pnew (ccell n i (nstart e) k) = true) -> closed Pnew h ->
+  estep fuel n i (OStart q nm args) e h = (e', h', ob) ->
+  sinv n i (fun q' => if Nat.eqb q' q then Pnew else PQ q') e' h'.
+Proof. exact sinv_start. Qed.
+Print Assumptions C04_slots_start.
+
+(* ... and in every state an engine can reach: R n i e h = invariant of (engine record, heap): every held generator c has a
+   query number below the start counter, argument variables that are user cells of this engine, and holds terms over
+   PQc c (= the cells named after its query number + the variables of its arguments) only; generators in different slots
+   have different query numbers and no argument variable in common; every binding of a cell of this engine in the heap is
+   in the trail of a held generator.  EVERY operation keeps R, provided a start uses variables that do not occur in the
+   queries held in the other slots at that moment (op_ok / hist_ok); R gives sinv for the family read off the record. *)
+Theorem C04_reach_invariant : forall n i, i < n -> forall fuel ops e h e' h' bs,
+  R n i e h -> hist_ok n i fuel ops e h -> erun n i fuel ops e h = (e', h', bs) -> R n i e' h'.
+Proof. exact R_run. Qed.
+Print Assumptions C04_reach_invariant.
+
+Theorem C04_reach_sinv : forall n i, i < n -> forall e h, R n i e h -> sinv n i (PQ_of n i e) e h.
+Proof. exact R_sinv. Qed.
+Print Assumptions C04_reach_sinv.
+
+(* the last sentence of the property text, self-contained: a new engine, ANY history pre of operations of all kinds in
+   which queries are started over variables not occurring in the other queries held, then ANY sequence of next / close /
+   drain on the slots: what is observed on slot q is what is observed when only the operations on q are run *)
+Theorem C04_disjoint_queries_alone : forall n i, i < n -> forall fuel pre ops e h bs0 q,
+  hist_ok n i fuel pre init_engine [] -> erun n i fuel pre init_engine [] = (e, h, bs0) -> Forall qop ops ->
+  pick q ops (snd (erun n i fuel ops e h))
+  = snd (erun n i fuel (filter (is_slot q) ops) e (fP (PQ_of n i e q) h)).
+Proof. exact disjoint_queries_alone. Qed.
+Print Assumptions C04_disjoint_queries_alone.
+
+(* both halves of the property in one statement: any number of engines, ANY schedule; the operations of engine i are a
+   history pre (any operations; queries started over variables not occurring in the other queries it holds) followed by
+   next / close / drain operations ops, interleaved in any way with the operations of the other engines.  What engine i
+   observes on slot q during ops is what that slot shows when it is the only one advanced, in an engine that ran alone. *)
+Theorem C04_world_disjoint_queries_alone : forall fuel n i sched pre ops e h bs0 q, i < n ->
+  map snd (only i sched) = pre ++ ops ->
+  hist_ok n i fuel pre init_engine [] -> erun n i fuel pre init_engine [] = (e, h, bs0) -> Forall qop ops ->
+  pick q ops (skipn (length pre) (proj i (snd (wrun fuel (init_world n) sched))))
+  = snd (erun n i fuel (filter (is_slot q) ops) e (fP (PQ_of n i e q) h)).
+Proof. exact world_disjoint_queries_alone. Qed.
+Print Assumptions C04_world_disjoint_queries_alone.
+
+(* the same for two bare generators (cursors) over one database: every interleaving of their next() calls
+   gives each the result sequence it has alone *)
+Theorem C04_same_engine_disjoint : forall (P1 P2 : nat -> bool) (f1 f2 : nat -> nat),
+  (forall v, P1 v = true -> P2 v = false) ->
+  (forall k, P1 (f1 k) = true) -> (forall k, P2 (f2 k) = true) ->
+  forall fuel d sched h c1 c2,
+  closed P1 h -> closed P2 h -> cgood P1 c1 -> cgood P2 c2 ->
+  run2 fuel d f1 f2 h c1 c2 sched =
+  (run1 fuel d f1 (fP P1 h) c1 (times true sched), run1 fuel d f2 (fP P2 h) c2 (times false sched)).
+Proof. exact same_engine_disjoint. Qed.
+Print Assumptions C04_same_engine_disjoint.
+
+(* the dereference / unification frame property everything rests on (Engine/Frame.v): over a heap that is closed
+   for P, unifying terms over P on the heap cut down to P gives the cut-down result, and the result only adds
+   bindings of P cells with values over P on top of the old heap *)
+Theorem C04_unify_frame : forall (P : nat -> bool) n s xs ys,
+  closed P s -> Forall (tin P) xs -> Forall (tin P) ys ->
+  unify_arrays n (fP P s) xs ys = umap P (unify_arrays n s xs ys) /\ upost P s (unify_arrays n s xs ys).
+Proof. exact unify_arrays_frame. Qed.
+Print Assumptions C04_unify_frame.
+
+(* non-vacuity: two engines with the same script and the same predicate name p/1 but different facts; after 10
+   steps of the schedule both generators are suspended and the shared heap holds the bindings of both, interleaved;
+   engine 0 sees a, b, done and engine 1 sees c, done *)
+Example C04_nonvacuous_world :
+  proj 0 (snd (wrun 100 (init_world 2) xsched))
+  = [otag "ok" []; otag "ok" []; otag "ok" []; otag "started" []; xans "a"; xans "b"; otag "done" []; otag "atom" [OL [onat 1]]]
+  /\ proj 1 (snd (wrun 100 (init_world 2) xsched))
+  = [otag "ok" []; otag "ok" []; otag "started" []; xans "c"; otag "done" []; otag "atom" [OL [onat 1]]]
+  /\ heap (fst (wrun 100 (init_world 2) (firstn 10 xsched)))
+  = [(2, xA "b"); (0, TVar 2); (3, xA "c"); (1, TVar 3)].
+Proof. exact ex_world. Qed.
+
+(* non-vacuity of the slot theorem: an engine reached by assert, assert, start, start; the hypotheses hold for the
+   family xPQ; both generators enumerate p/1 and each sees a, b although the other is advanced in between *)
+Example C04_nonvacuous_slots :
+  Forall qop xops /\ sinv 1 0 xPQ xe []
+  /\ pick 0 xops (snd (erun 1 0 50 xops xe [])) = [xans "a"; xans "b"; otag "done" []]
+  /\ pick 1 xops (snd (erun 1 0 50 xops xe [])) = [xans "a"; xans "b"; otag "closed" []; otag "done" []]
+  /\ snd (fst (erun 1 0 50 (firstn 2 xops) xe [])) <> [].
+Proof. exact ex_slots. Qed.
+
+(* non-vacuity of C04_disjoint_queries_alone: the history assert, assert, start p(X0), start p(X1) satisfies hist_ok and
+   reaches the engine xe of the previous example *)
+Example C04_nonvacuous_reach :
+  hist_ok 1 0 50 xprep init_engine [] /\ fst (fst (erun 1 0 50 xprep init_engine [])) = xe
+  /\ snd (fst (erun 1 0 50 xprep init_engine [])) = [] /\ Forall qop xops
+  /\ pick 0 xops (snd (erun 1 0 50 xops xe [])) = [xans "a"; xans "b"; otag "done" []]
+  /\ pick 1 xops (snd (erun 1 0 50 xops xe [])) = [xans "a"; xans "b"; otag "closed" []; otag "done" []].
+Proof. exact ex_reach. Qed.
